@@ -323,6 +323,28 @@ def purge_report_obligations(ctx: Any, R: str) -> List[Ob]:
     return out
 
 
+
+def cache_methods_reached(ctx: Any, roots: Any) -> Set[str]:
+    """Qualified names of the DNSCache methods that the given functions call, closed under the calls those methods make to
+    other methods of the cache (a read method that delegates to another one relies on that one for the key)."""
+    todo, seen = [], set()
+    for g in roots:
+        for cs in ctx.cg.sites_in(g):
+            for t in cs.targets:
+                if t.cls is not None and t.cls.full == CACHE:
+                    todo.append(t)
+    while todo:
+        t = todo.pop()
+        if t.qual in seen:
+            continue
+        seen.add(t.qual)
+        for cs in ctx.cg.sites_in(t):
+            for t2 in cs.targets:
+                if t2.cls is not None and t2.cls.full == CACHE:
+                    todo.append(t2)
+    return seen
+
+
 @rule('C05.PURGE', 'D', expect_min=12)
 def purge(ctx: Any) -> List[Ob]:
     """The purge selects by is_expired(now), removes exactly that selection and
@@ -427,7 +449,11 @@ def purge(ctx: Any) -> List[Ob]:
     okc, iv = prog.try_fold(g.module, ast.Name(id='_CACHE_CLEANUP_INTERVAL', ctx=ast.Load()))
     obs.append(ob(R, g, '_CACHE_CLEANUP_INTERVAL', 'the purge period is 10 s', okc and iv == 10, f'folds to {iv}'))
     # predicate bindings
+    vanished: List[Tuple[str, Set[str], str]] = []  # (owner prefix, predicates, why) of table entries whose function is gone
     for full, (want, why) in PREDICATE_BINDINGS.items():
+        if full not in prog.functions:
+            vanished.append((full.rsplit('.', 1)[0], set(want), why))
+            continue
         h = prog.func(full)
         used = {call_name(c) for c in ast.walk(h.node) if isinstance(c, ast.Call) and call_name(c) in LIFETIME and isinstance(c.func, ast.Attribute)}
         obs.append(ob(R, h, f'lifetime predicates used: {sorted(used)}', f'{why} (expects {sorted(want)})', used == want))
@@ -437,6 +463,12 @@ def purge(ctx: Any) -> List[Ob]:
             continue
         used = {call_name(c) for c in walk_local_ordered(f2.node) if isinstance(c, ast.Call) and call_name(c) in LIFETIME and isinstance(c.func, ast.Attribute)}
         if used:
+            # a consumer that took over from a table entry that no longer exists (renamed / merged within the same class or
+            # module) inherits that entry's binding
+            heir = next((v for v in vanished if f2.full.rsplit('.', 1)[0] == v[0] and used == v[1]), None)
+            if heir is not None:
+                obs.append(ob(R, f2, f'lifetime predicates used: {sorted(used)}', f'{heir[2]} (expects {sorted(heir[1])}; takes the place of a consumer that no longer exists)', True))
+                continue
             obs.append(ob(R, f2, f'lifetime predicates used: {sorted(used)}', 'every consumer of record lifetime is in the binding table (a new consumer must be classified)', False, 'not in the binding table'))
     return obs
 
